@@ -289,7 +289,7 @@ GenAlphabet == %s
 GenPrefixLen == %d
 GenSuffixLen == %d
 GenLimits == %s
-GenParamValues == { <<"a">>, <<"a","b">>, <<"A","b">> }
+GenParamValues == { <<"a">>, <<"a","b">>, <<"A","b">>, <<"{","a">> }
 GenCatchValues == { <<"a","/","b">> }
 ====
 `, tlaCharSet(patternAlphabet), pre, suf, tlaLimits(patLimits))
@@ -340,6 +340,19 @@ GenCatchValues == { <<"a","/","b">> }
 				if !ok {
 					r.violation(fmt.Sprintf("pattern %q request host=%q path=%q", s, in.H, in.P), map[string]any{"kind": "vector", "pattern": s, "host": in.H, "path": in.P,
 						"prescribed": outcome{Route: s, Params: in.B}, "exact_params_required": in.X, "obtained": got})
+				}
+				// the same through the entry points that only look (Reverse, the iterator's Reverse)
+				if rv := obtainReverse(rt, "GET", in.H, in.P); rv.Route != s || rv.Tsr {
+					r.violation(fmt.Sprintf("pattern %q request host=%q path=%q entry=Reverse", s, in.H, in.P), map[string]any{"kind": "vector", "pattern": s, "host": in.H, "path": in.P,
+						"prescribed": outcome{Route: s}, "obtained": rv})
+				}
+				viaIter := ""
+				for _, rte := range rt.Iter().Reverse(slices.Values([]string{"GET"}), in.H, in.P) {
+					viaIter = rte.Pattern()
+				}
+				if viaIter != s {
+					r.violation(fmt.Sprintf("pattern %q request host=%q path=%q entry=Iter.Reverse", s, in.H, in.P), map[string]any{"kind": "vector", "pattern": s, "host": in.H, "path": in.P,
+						"prescribed": outcome{Route: s}, "obtained": viaIter})
 				}
 				// the same through ServeHTTP
 				sg, _, _ := obtainServe(rt, "GET", in.H, in.P)
@@ -439,6 +452,63 @@ GenCatchValues == { <<"a","/","b">> }
 		r.violation(fmt.Sprintf("pattern %q maxParams=%v maxKey=%v", pats[i-1], o["maxp"], o["maxk"]), map[string]any{"kind": "trace", "pattern": pats[i-1],
 			"prescribed": map[string]any{"accepted": !o["ok"].(bool)}, "obtained": map[string]any{"accepted": o["ok"]}})
 	}
+	// "every accepted pattern is routable" for the long patterns too: registered alone on a default router, the plain
+	// substitution of its wildcards is routed to it by every entry point, and the values reported reproduce the request
+	routed := 0
+	for _, pat := range pats {
+		rt, err := fox.New()
+		if err != nil {
+			failTool("fox.New: %v", err)
+		}
+		if _, err := rt.Handle("GET", pat, routeHandler(pat)); err != nil {
+			continue
+		}
+		var vals []string
+		rest := pat
+		for k := 0; ; k++ {
+			i := strings.IndexByte(rest, '{')
+			if i < 0 {
+				break
+			}
+			if i > 0 && rest[i-1] == '*' {
+				vals = append(vals, fmt.Sprintf("w%d/z", k))
+			} else {
+				vals = append(vals, fmt.Sprintf("v%d", k))
+			}
+			rest = rest[i+1:]
+		}
+		target := substitute(pat, vals)
+		host, path := "", target
+		if i := strings.IndexByte(target, '/'); i > 0 {
+			host, path = target[:i], target[i:]
+		}
+		routed++
+		bad := func(entry string, got any) {
+			r.violation(fmt.Sprintf("pattern %q request host=%q path=%q entry=%s", pat, host, path, entry), map[string]any{"kind": "vector", "pattern": pat, "host": host, "path": path,
+				"prescribed": outcome{Route: pat}, "obtained": got})
+		}
+		if got := obtainLookup(rt, "GET", host, path); got.Route != pat || got.Tsr || len(got.Params) != len(vals) {
+			bad("Lookup", got)
+		} else {
+			gv := make([]string, len(got.Params))
+			for i, kv := range got.Params {
+				gv[i] = kv[1]
+			}
+			if substitute(pat, gv) != target {
+				bad("Lookup (parameter values)", got)
+			}
+		}
+		if rv := obtainReverse(rt, "GET", host, path); rv.Route != pat || rv.Tsr {
+			bad("Reverse", rv)
+		}
+		if got := obtainIterReverse(rt.Iter(), "GET", host, path); len(got) != 1 || got[0] != "GET "+pat {
+			bad("Iter.Reverse", got)
+		}
+		if sg, _, _ := obtainServe(rt, "GET", host, path); sg.Route != pat {
+			bad("ServeHTTP", sg)
+		}
+	}
+	r.addCov("long_patterns_routed", int64(routed))
 	// arbitrary bytes: registration must never panic
 	for i := 0; i < pick(r, 20000, 300000); i++ {
 		b := make([]byte, rng.Intn(12))
